@@ -7,4 +7,8 @@ let table : (string * (val0 -> val0)) list = [
   "chk_c06", chk_c06;
   "chk_c14", chk_c14;
   "chk_c16", chk_c16;
+  "chk_c08_frames", chk_c08_frames;
+  "chk_c08_big", chk_c08_big;
+  "chk_c08_ws", chk_c08_ws;
+  "chk_c08_resp", chk_c08_resp;
 ]
